@@ -112,6 +112,18 @@ func isScalarType(t ast.Type) bool {
 	return false
 }
 
+// optionOfScalar: t is ?T for a scalar type T.
+func optionOfScalar(t ast.Type) bool {
+	ot, ok := t.(ast.OptionType)
+	return t.Kind() == ast.OptionTypeKind && ok && ot.Inner != nil && isScalarType(ot.Inner)
+}
+
+// optionInner: T of ?T.
+func optionInner(t ast.Type) ast.Type { return t.(ast.OptionType).Inner }
+
+// plainValue: neither an option nor null.
+func plainValue(v Value) bool { return v.Kind() != OptionValueKind && v.Kind() != NullValueKind }
+
 // shallowWF: the immediate components of a value are present (list elements
 // and object fields are non-nil pointers to values; an option's inner
 // pointer, when set, points to a value).
@@ -136,6 +148,9 @@ func shallowWF(v Value) bool {
     ensures @complete conforms(val, typ) && isScalarType(typ) ==> ret1 == nil
     ensures @refused ret1 != nil ==> ret0 == nil
     ensures @strict-scalars !allowCasts && isScalarType(typ) && !conforms(val, typ) ==> ret1 != nil
+    ensures @strict-under-option !allowCasts && optionOfScalar(typ) && plainValue(val) && !kindConforms(val, optionInner(typ)) ==> ret1 != nil
+    ensures @strict-inside-option !allowCasts && optionOfScalar(typ) && val.Kind() == OptionValueKind && val.(ValueOption).Inner != nil && !kindConforms(*val.(ValueOption).Inner, optionInner(typ)) ==> ret1 != nil
+    ensures @unchanged-under-option ret1 == nil && !allowCasts && optionOfScalar(typ) && plainValue(val) ==> (*ret0).(ValueOption).Inner != nil && *(*ret0).(ValueOption).Inner == val
     loop 4 invariant cap(outputList) == 0 || fresh(outputList)
 @*/
 
@@ -148,6 +163,9 @@ func shallowWF(v Value) bool {
     ensures @unchanged ret1 == nil && !allowCasts && isScalarType(typ) ==> *ret0 == val
     ensures @complete conforms(val, typ) && isScalarType(typ) ==> ret1 == nil
     ensures @strict-scalars !allowCasts && isScalarType(typ) && !conforms(val, typ) ==> ret1 != nil
+    ensures @strict-under-option !allowCasts && optionOfScalar(typ) && plainValue(val) && !kindConforms(val, optionInner(typ)) ==> ret1 != nil
+    ensures @strict-inside-option !allowCasts && optionOfScalar(typ) && val.Kind() == OptionValueKind && val.(ValueOption).Inner != nil && !kindConforms(*val.(ValueOption).Inner, optionInner(typ)) ==> ret1 != nil
+    ensures @unchanged-under-option ret1 == nil && !allowCasts && optionOfScalar(typ) && plainValue(val) ==> (*ret0).(ValueOption).Inner != nil && *(*ret0).(ValueOption).Inner == val
 @*/
 
 // ---------------------------------------------------------------------------
